@@ -843,6 +843,8 @@ class ANF:
             raise Unsupported("comprehension target")
 
     def binop(self, op, a, b):
+        if isinstance(op, (ast.BitOr, ast.Add)) and _still_empty(a) and _still_empty(b):
+            return self.fresh("set" if isinstance(op, ast.BitOr) else "list")       # the union / concatenation of two empty containers
         if isinstance(op, ast.Add) and (_listlike(a) or _listlike(b) or (_fn_output(a) and _fn_output(b))):
             if a[0] in ("list", "tuple") and b[0] in ("list", "tuple"):
                 return (a[0], a[1] + b[1])
@@ -970,6 +972,20 @@ class ANF:
                         if all(d_ in ("classmethod", "staticmethod") for d_ in decos):
                             margs = list(args) if "staticmethod" in decos else [recv] + list(args)
                             return self.inline_call(gm.qualname, e, margs, kw, cond, loops, g=gm)
+                if f.attr in ("update", "pop", "popitem", "clear", "setdefault", "__setitem__", "__delitem__") and isinstance(f.value, ast.Name) \
+                        and f.value.id in env and isinstance(env[f.value.id], tuple) and base_of(env[f.value.id])[:1] == ("dict",):
+                    # a method that changes a local dictionary display: later reads must not see the display as written
+                    cur = env[f.value.id]
+                    if f.attr == "update" and len(args) == 1 and not kw and args[0][0] == "dict" \
+                            and all(k_[0] == "c" and k_ != C("**") for k_, _ in args[0][1]):
+                        for k_, v_ in args[0][1]:
+                            cur = ("upd", cur, (k_,), v_)
+                    elif f.attr == "update" and not args and kw and all(k_ != "**" for k_, _ in kw):
+                        for k_, v_ in kw:
+                            cur = ("upd", cur, (C(k_),), v_)
+                    else:
+                        cur = ("upd", cur, (("star", ("tuple", (C(f.attr),) + tuple(args))),), C(None))
+                    env[f.value.id] = cur
                 if f.attr == "get" and len(args) == 1 and not kw:
                     args = args + [C(None)]         # mapping.get(k) is mapping.get(k, None)
                 if f.attr == "update" and len(args) == 1 and not kw and args[0][0] == "dict" and not _setlike(recv) \
@@ -1041,6 +1057,9 @@ class ANF:
             return ("list", tuple(("tuple", tuple(a[1][i] for a in args)) for i in range(n_)))
         if fn[0] == "x" and fn[1] in ("builtins.dict", "builtins.list", "builtins.set") and not args and not kw:
             return self.fresh(fn[1].split(".")[-1])
+        if fn[0] == "x" and fn[1] in ("builtins.list", "builtins.set", "builtins.frozenset", "builtins.tuple", "builtins.sorted") \
+                and len(args) == 1 and _still_empty(args[0]) and not kw:
+            return self.fresh("set" if fn[1].endswith("set") else "list")      # a copy of a container that is (still) empty
         if fn[0] == "f" and fn[1].endswith(".get_net_option") and len(args) == 2 and is_const(args[1]) \
                 and args[1][1] in self.options:
             return C(self.options[args[1][1]])
@@ -1199,6 +1218,9 @@ class ANF:
         return out
 
 
+_NEG_CMP = {"in": "not in", "not in": "in", "==": "!=", "!=": "==", "is": "is not", "is not": "is"}
+
+
 def _facts_of(cond, res):
     """{key(condition term): truth value} implied by a path condition: conjuncts of a true `and`, disjuncts of a false `or`"""
     cache = res.__dict__.setdefault("_facts", {})
@@ -1213,6 +1235,8 @@ def _facts_of(cond, res):
         while c[0] == "u" and c[1] == "not":
             c, pol = c[2], not pol
         facts[key(c)] = pol
+        if c[0] == "cmp" and c[1] in _NEG_CMP:
+            facts[key(("cmp", _NEG_CMP[c[1]]) + tuple(c[2:]))] = not pol        # `a not in b` is not (a in b)
         if c[0] == "bool" and ((c[1] == "and" and pol) or (c[1] == "or" and not pol)):
             for x in c[2]:
                 add(x, pol, depth + 1)
@@ -1306,6 +1330,10 @@ def ite_leaves(t, _conds=()):
     if isinstance(t, tuple) and t and t[0] == "ite" and len(t) == 4:
         return ite_leaves(t[2], _conds + ((t[1], True),)) + ite_leaves(t[3], _conds + ((t[1], False),))
     return [(_conds, t)]
+
+
+def _still_empty(t):
+    return isinstance(t, tuple) and bool(t) and ((t[0] == "new" and t[2] in ("list", "set", "dict")) or (t[0] in ("list", "tuple", "set") and not t[1]))
 
 
 def base_of(t):
